@@ -744,7 +744,7 @@ def nested_worker_loop(nodes):
         for x in ast.walk(n):
             if isinstance(x, ast.For) and direct_worker_call(x.body):
                 found.append(x)
-            elif isinstance(x, ast.ListComp) and direct_worker_call([ast.Expr(x.elt)]):
+            elif isinstance(x, (ast.ListComp, ast.GeneratorExp)) and direct_worker_call([ast.Expr(x.elt)]):
                 found.append(x)
     return len(found) == 1
 
@@ -944,8 +944,8 @@ class C19Executor(Executor):
     def loop_label(self, node):
         fnode = self.cur_fn_stack[-1]
         pre = f"{fnode.name}." if self.inline_depth > 0 and isinstance(fnode, ast.FunctionDef) else ""
-        if isinstance(node, ast.ListComp):
-            return f"{pre}comp{own_nodes(fnode, ast.ListComp).index(node)}"
+        if isinstance(node, (ast.ListComp, ast.GeneratorExp)):
+            return f"{pre}comp{own_nodes(fnode, (ast.ListComp, ast.GeneratorExp)).index(node)}"
         return f"{pre}loop{own_nodes(fnode, (ast.For, ast.While)).index(node)}"
 
     def seq_view3(self, st, it):
@@ -1149,6 +1149,13 @@ class C19Executor(Executor):
             after.frames.pop()
             res.append((after, acc))
         return res
+
+    def e_GeneratorExp(self, n, st):
+        # round 8: `sep.join(ELT for T in xs)` follows the list-comprehension path (the engine's convention for generator
+        # expressions is eager evaluation, pyvc/exprs.py e_GeneratorExp); with `if` clauses / several `for`s: the engine's rule
+        if len(n.generators) != 1 or n.generators[0].ifs or n.generators[0].is_async:
+            return super().e_GeneratorExp(n, st)
+        return self.e_ListComp(n, st)
 
 
 def prefix(t, k):
